@@ -44,7 +44,7 @@ func Callee(pk *packages.Package, call *ast.CallExpr) types.Object {
 // FullName renders a resolved function object with the module prefix removed.
 func FullName(o types.Object) string {
 	if f, ok := o.(*types.Func); ok {
-		return Rel(f.FullName())
+		return canonName(Rel(f.FullName()))
 	}
 	if o == nil {
 		return ""
@@ -137,6 +137,13 @@ func (p *Program) FuncDecls() []DeclSite {
 // FindDecl finds a function declaration by its relative full name, e.g.
 // "(*notations/jschema/checker.checkSchema).checkNode" or "errs.f".
 func (p *Program) FindDecl(full string) *DeclSite {
+	if d := p.findDeclExact(full); d != nil {
+		return d
+	}
+	return p.resolveRenamed(full)
+}
+
+func (p *Program) findDeclExact(full string) *DeclSite {
 	for _, pk := range p.Pkgs {
 		for _, file := range pk.Syntax {
 			for _, d := range file.Decls {
